@@ -51,6 +51,18 @@ pub fn evaluate_pair(case: &PairCase, run: &PairRun, focus: Focus) -> Outcome {
         &C05Ctx { tap: &tap, av: &av, events: &run.events, h2_sides: &sides, advertised: [case.ccfg.max_concurrent, case.scfg.max_concurrent], check_recycling: true },
         &mut out,
     );
+    check_c03(
+        &C03Ctx {
+            tap: &tap,
+            events: &run.events,
+            samples: &run.samples,
+            final_stats: &run.stats,
+            h2_sides: &sides,
+            conn_target: [case.ccfg.conn_window.unwrap_or(65535), case.scfg.conn_window.unwrap_or(65535)],
+            initial_window: [case.ccfg.initial_window.unwrap_or(65535), case.scfg.initial_window.unwrap_or(65535)],
+        },
+        &mut out,
+    );
     if focus == Focus::Faults {
         let ending = if let Some(f) = &case.fault {
             format!("{:?}-{}", f.kind, if f.c2s { "c2s" } else { "s2c" })
